@@ -70,7 +70,18 @@ def oracle(fal, S, A, R, rep):
             for opt in ("max", "min"):
                 a = fal.get_action(s, action_space=space.copy(), optimality=opt)
                 _, rw = fal.get_actions_and_rewards(s, action_space=space.copy())
-                rw = np.asarray(rw).reshape(len(space), -1)[:, 0]
+                rw_full = np.asarray(rw).reshape(len(space), -1)
+                rw = rw_full[:, 0]
+                # the predicted reward of (s, a) is the reward-channel centre of the category selected with the
+                # reward channel withheld - computed here through FusionART's own partial-channel prediction
+                for ai, araw in enumerate(space):
+                    aprep = np.array([[float(araw[0]), 1.0 - float(araw[0])]])
+                    dj = fus.join_channel_data([s.reshape(1, -1), aprep], skip_channels=[2])
+                    cj = int(fus.predict(dj, skip_channels=[2])[0])
+                    if not np.array_equal(rw_full[ai], np.asarray(cen[cj]).ravel()):
+                        f("get_action", f"predicted reward of action {float(araw[0])} is {rw_full[ai].tolist()}, the reward centre of the category "
+                          f"selected with the reward channel withheld is {np.asarray(cen[cj]).ravel().tolist()}")
+                        break
                 want = int(np.argmax(rw)) if opt == "max" else int(np.argmin(rw))
                 best = rw.max() if opt == "max" else rw.min()
                 first = [i for i in range(len(rw)) if rw[i] == best][0]
